@@ -233,7 +233,7 @@ def extract_chain(root):
                    "bool suppressed = false; if (mSuppressions.nomsg.isSuppressed(errorMessage, mUseGlobalSuppressions)) {",
                    "if (mSettings.safety && ErrorLogger::isCriticalErrorId(msg.id)) { mExitCode = 1; if (mSuppressions.nomsg.isSuppressedExplicitly(errorMessage, mUseGlobalSuppressions)) {",
                    "temp.severity = Severity::internal; mErrorLogger.reportErr(temp); } else { mErrorLogger.reportErr(msg); } } suppressed = true; }",
-                   "if (errmsg.empty()) return; if (!mSettings.emitDuplicates && !mErrorList.emplace(std::move(errmsg)).second) return;",
+                   "if (errmsg.empty()) return; if (!mSettings.emitDuplicates && !(suppressed ? mSuppressedErrorList : mErrorList).emplace(std::move(errmsg)).second) return;",
                    "if (suppressed) return; if (!mSuppressions.nofail.isSuppressed(errorMessage) && !mSuppressions.nomsg.isSuppressed(errorMessage)) { mExitCode = 1; }"]:
             need(b, st, "CppCheckLogger::reportErr")
         if b.count("mExitCode") != 2:
@@ -242,6 +242,9 @@ def extract_chain(root):
         if whole.count("mExitCode") != 5:
             raise Unrecognised("lib/cppcheck.cpp: mExitCode used %d times (expected 5)" % whole.count("mExitCode"))
         need(whole, "void resetExitCode() { mExitCode = 0; }", "CppCheckLogger")
+        need(whole, "void clear() { mErrorList.clear(); mSuppressedErrorList.clear(); }", "CppCheckLogger")
+        if whole.count("mErrorList") != 3 or whole.count("mSuppressedErrorList") != 3:
+            raise Unrecognised("CppCheckLogger: duplicate filters used %d / %d times (expected 3 / 3)" % (whole.count("mErrorList"), whole.count("mSuppressedErrorList")))
         need(whole, "unsigned int exitcode() const { return mExitCode; }", "CppCheckLogger")
         need(whole, "unsigned int mExitCode{};", "CppCheckLogger")
         need(whole, "mLogger->resetExitCode();", "lib/cppcheck.cpp")
